@@ -27,6 +27,10 @@ pub struct Case {
     /// one sample truncated before some indel (then neither form is present: genotype must be '.'): (sample selector, cut selector)
     #[serde(default)]
     pub trunc: Option<(u16, u16)>,
+    /// the second indel removes the same sequence from the same carriers as the first (a recurrent
+    /// event at another locus: two distinct indels that must both be reported)
+    #[serde(default)]
+    pub twin: bool,
 }
 
 fn case_strategy() -> BoxedStrategy<Case> {
@@ -40,8 +44,9 @@ fn case_strategy() -> BoxedStrategy<Case> {
         proptest::collection::vec(any::<bool>(), 1..6),
         prop::sample::select(vec![1u8, 1, 2, 4]),
         prop_oneof![2 => Just(None), 1 => (any::<u16>(), any::<u16>()).prop_map(Some)],
+        prop::bool::weighted(0.3),
     )
-        .prop_map(|(k, n_samples, material, lead, tail, indels, orient, threads, trunc)| Case { k, n_samples, material, lead, tail, indels, orient, threads, trunc })
+        .prop_map(|(k, n_samples, material, lead, tail, indels, orient, threads, trunc, twin)| Case { k, n_samples, material, lead, tail, indels, orient, threads, trunc, twin })
         .boxed()
 }
 
@@ -57,17 +62,23 @@ pub struct Mat {
 
 pub fn materialise(c: &Case) -> Result<Mat, String> {
     let k = c.k;
-    let mut planned = Vec::new();
+    let mut planned: Vec<(usize, usize, Vec<bool>)> = Vec::new();
     let mut p = 2 * k + gen::idx(c.lead, k / 2 + 1);
-    for (g, l, carr) in &c.indels {
-        let ln = 1 + gen::idx(*l, 10.min(k - 1));
-        planned.push((p, ln, carr.clone()));
+    for (ii, (g, l, carr)) in c.indels.iter().enumerate() {
+        let (ln, carr) = if c.twin && ii == 1 { (planned[0].1, planned[0].2.clone()) } else { (1 + gen::idx(*l, 10.min(k - 1)), carr.clone()) };
+        planned.push((p, ln, carr));
         p += ln + 4 * k + gen::idx(*g, k + 1);
     }
     let (lp, ll, _) = planned.last().unwrap();
     let len = lp + ll + 2 * k + gen::idx(c.tail, 2 * k);
     let mut seen = std::collections::HashSet::new();
-    let anc = gen::unique_seq(&c.material, len, k - 1, false, &mut seen).ok_or("no unique extension")?;
+    let mut anc = gen::unique_seq(&c.material, len, k - 1, false, &mut seen).ok_or("no unique extension")?;
+    if c.twin && planned.len() >= 2 {
+        // same removed sequence at both loci (the repeat-free precondition is re-checked below)
+        let (p0, ln, p1) = (planned[0].0, planned[0].1, planned[1].0);
+        let seg = anc[p0..p0 + ln].to_vec();
+        anc[p1..p1 + ln].copy_from_slice(&seg);
+    }
     let mut indels = Vec::new();
     for (ii, (p, ln, carr)) in planned.iter().enumerate() {
         let mut cs: Vec<bool> = (0..c.n_samples).map(|j| carr[j % carr.len()]).collect();
@@ -300,6 +311,7 @@ fn check(c: &Case, ctx: &Ctx) -> Outcome {
             if planted >= 2 { cl.push(">=2_indels"); }
             if c.threads > 1 { cl.push("threads>1"); }
             if m.trunc.is_some() { cl.push("sample_missing_at_an_indel"); }
+            if c.twin && planted >= 2 { cl.push("twin_indels(same_sequence_same_carriers_two_loci)"); }
             pass(found > 0, key_of(&(k, &m.fwd, c.threads)), cl)
         }
     }
@@ -321,7 +333,7 @@ fn post(rt: &mut Runtime) {
     }
 }
 
-const RULE: &str = "generated: ancestor (all insertions present) with unique (k-1)-mers on both strands, 1-3 indels of length 1..min(10,k-1) at least 4k apart and 2k from the ends, carrier sets non-empty and proper over 3-8 samples, the union of all derived samples re-checked: a (k-1)-mer may recur only at the same ancestor coordinates (rejections counted), samples randomly reverse-complemented, k in {11,15,21,31}, threads 1/2/4; in a third of the cases one of >= 4 samples is truncated >= 2k before an indel (neither form present: must be genotyped '.', run with -m 0.4). Oracle per record: before+REF+after (or its reverse complement) occurs in exactly the samples genotyped 0, before+ALT+after in exactly those genotyped 1, '.' iff neither or both; the record matches one planted indel by length and carriers, none twice, none unmatched; aggregate recall >= 90% (checked when >= 200 planted). Non-trivial: >= 1 indel reported.";
+const RULE: &str = "generated: ancestor (all insertions present) with unique (k-1)-mers on both strands, 1-3 indels of length 1..min(10,k-1) at least 4k apart and 2k from the ends, carrier sets non-empty and proper over 3-8 samples, in 30% of the multi-indel cases the second indel removes the same sequence from the same carriers as the first (two loci, two records expected), the union of all derived samples re-checked: a (k-1)-mer may recur only at the same ancestor coordinates (rejections counted), samples randomly reverse-complemented, k in {11,15,21,31}, threads 1/2/4; in a third of the cases one of >= 4 samples is truncated >= 2k before an indel (neither form present: must be genotyped '.', run with -m 0.4). Oracle per record: before+REF+after (or its reverse complement) occurs in exactly the samples genotyped 0, before+ALT+after in exactly those genotyped 1, '.' iff neither or both; the record matches one planted indel by length and carriers, none twice, none unmatched; aggregate recall >= 90% (checked when >= 200 planted). Non-trivial: >= 1 indel reported.";
 
 fn stages(tier: Tier) -> Vec<Box<dyn Stage>> {
     vec![gen_stage_show("indels", RULE, tier.pick(1600, 20_000), 150, case_strategy, check, |c| match materialise(c) {
